@@ -200,3 +200,6 @@ PROP = dict(
     assumptions=["HMAC-SHA256, HMAC-MD5 ideal (parameters)", "wall clock sampled, not controlled"],
     trusted=["Python hashlib/hmac as the independent MAC oracle for the model"],
 )
+
+from ..pin import add_pin
+PROP = add_pin(PROP)
